@@ -77,6 +77,9 @@ def make_obj(objkind, span, n):
         c.add_variable('F32', [0.5 + i for i in range(n)], dtype=np.float32)
         c.add_attribute('weights', np.array([0.25, 0.75]))   # attributes of any type carry over: an array, a nested list
         c.add_attribute('notes', [['a'], {'k': 1}])
+        c.add_attribute('dF', 'first difference of F')   # attribute names that contain the name of a variable (prefix, suffix, one character more)
+        c.add_attribute('K_', 3)
+        c.add_attribute('xQ', None)
         return c
     cls = PModel if objkind.startswith('pmodel') else _MODEL
     m = cls(span, X=[1.0 + i for i in range(n)], Y=[0.5 * i for i in range(n)])
@@ -84,6 +87,9 @@ def make_obj(objkind, span, n):
     m.leads = 1
     m.adhoc = ['note', 1]
     m.weights = np.array([0.25, 0.75])
+    m.dX = 'first difference of X'
+    m.gY = 0.02
+    m.Y_ = None
     if objkind.endswith('partly') and n >= 1:
         m.status[n - 1] = '.'
         m.iterations[n - 1] = 4
